@@ -13,7 +13,8 @@ EFF_FAMILIES = {
     "C04": ["FRAME-book"],
     "C05": ["CALLS", "PROV", "FRAME-kernel"],
     "C07": ["READS-rng", "INIT"],          # equal seed => equal run also on a used instance (histories)
-    "C08": ["INIT", "FRAME-book"],
+    "C08": ["INIT", "FRAME-book", "FRAME-cfg"],   # a run that writes into its configuration hands state to the next run
+    "C19": ["CTOR"],                               # a grid point is evaluated with exactly its parameters: set_config_parameters is C(**d)
     "C09": ["FRAME-cfg"],
     "C10": ["POP-own", "LEN"],
     "C11": ["POOL-pure"],
@@ -169,8 +170,8 @@ def _bnd_component(R, pid, tier, seed):
             if r.get("exc"):
                 e = r["exc"]
                 msgs[f"BND.C11.{c['opt']}.{c.get('mode')}.{e['type']}.{e['where']}"] = f"{e['type']} in {e['where']}: {e['msg']}"
-            if c.get("mode") == "process" and r.get("initial_duplicates", 0) > 0:
-                msgs[f"BND.C11.{c['opt']}.process.duplicates"] = (f"{r['initial_duplicates']} exact duplicates in a process-mode initial "
+            if c.get("mode") in ("process", "thread") and r.get("initial_duplicates", 0) > 0:
+                msgs[f"BND.C11.{c['opt']}.{c.get('mode')}.duplicates"] = (f"{r['initial_duplicates']} exact duplicates in a {c.get('mode')}-mode initial "
                                                                    f"population (workers replay one another's random stream)")
         elif pid == "C17":
             if r.get("non_monotone_at"):
@@ -198,12 +199,18 @@ def _bnd_component(R, pid, tier, seed):
             if c.get("scenario") == "single" and c["kind"] in bnd.INTCODED and not r.get("skip"):
                 pairs.setdefault((c["opt"], c["kind"]), []).append(r)
         failing_today = {tuple(x) for x in exp["C06_intcoded_failing_pairs"]}
+        partial_today = {tuple(x) for x in exp.get("C06_intcoded_partial_pairs", [])}
         for (opt, kind), rs in sorted(pairs.items()):
             longest = max(x.get("cycles_budget", 0) for x in rs)
-            rs = [x for x in rs if x.get("cycles_budget", 0) == longest]      # "wholesale": every run with the full budget fails
-            if all(x.get("exc") for x in rs) and (opt, kind) not in failing_today:
+            rs = [x for x in rs if x.get("cycles_budget", 0) == longest]      # only runs with the full budget are looked at
+            n_fail = sum(1 for x in rs if x.get("exc"))
+            # "wholesale": a pair with no failing run today now fails in at least half of its runs; a pair that fails in some
+            # runs today now fails in all of them
+            wholesale = (n_fail == len(rs)) if (opt, kind) in partial_today else (2 * n_fail >= len(rs) and n_fail > 0)
+            if wholesale and (opt, kind) not in failing_today:
+                rs = [x for x in rs if x.get("exc")]
                 e = rs[0]["exc"]
-                viol.setdefault(f"BND.C06.{opt}.{kind}.wholesale", (f"every run of {opt} on the {kind} task now fails: {e['type']} in {e['where']}: {e['msg']}", rs[0]))
+                viol.setdefault(f"BND.C06.{opt}.{kind}.wholesale", (f"{n_fail} of the full-budget runs of {opt} on the {kind} task now fail: {e['type']} in {e['where']}: {e['msg']}", rs[0]))
     for k, (m, r) in sorted(viol.items()):
         case = dict(r["case"])
         R.violation(k, m, {"replay_kind": "bnd", "case": _full_case(r, tier, 0), "observed": m})
